@@ -106,63 +106,83 @@ var (
 	lTwo  = []string{"l", "m"}
 )
 
-// candidates is the full alphabet; an operation is offered in a state only if
-// its target body / block exists in the model of that state.
-var candidates = buildCandidates()
+// alphabetThorough is the full alphabet, alphabetQuick its core subset (the
+// members marked quick). An operation is offered in a state only if its target
+// body / block exists in the model of that state.
+var alphabetQuick, alphabetThorough = buildAlphabets()
 
-func buildCandidates() []Op {
-	var out []Op
-	add := func(t []int, ops ...Op) {
+func alphabetFor(tier string) []Op {
+	if tier == "thorough" {
+		return alphabetThorough
+	}
+	return alphabetQuick
+}
+
+func buildAlphabets() (quick, thorough []Op) {
+	add := func(t []int, core bool, ops ...Op) {
 		for _, o := range ops {
 			o.T = t
 			o.name = o.String()
-			out = append(out, o)
+			thorough = append(thorough, o)
+			if core {
+				quick = append(quick, o)
+			}
 		}
 	}
 	root := []int(nil)
 	// root body: the complete operation set
-	add(root,
+	add(root, true,
 		Op{K: "setv", N: "a", V: "1"}, Op{K: "setv", N: "a", V: "s"}, Op{K: "setv", N: "a", V: "l"},
 		Op{K: "setv", N: "b", V: "1"}, Op{K: "setv", N: "c", V: "1"},
 		Op{K: "setraw", N: "a", V: "x.y"}, Op{K: "setraw", N: "c", V: "1+2"},
 		Op{K: "settrav", N: "a"}, Op{K: "settrav", N: "c"},
 		// rename: onto an existing name, onto a fresh name, from an absent name, onto itself
 		Op{K: "ren", N: "a", N2: "b"}, Op{K: "ren", N: "a", N2: "c"}, Op{K: "ren", N: "b", N2: "a"},
-		Op{K: "ren", N: "b", N2: "c"}, Op{K: "ren", N: "c", N2: "a"}, Op{K: "ren", N: "a", N2: "a"},
+		Op{K: "ren", N: "c", N2: "a"}, Op{K: "ren", N: "a", N2: "a"},
 		Op{K: "rm", N: "a"}, Op{K: "rm", N: "b"}, Op{K: "rm", N: "c"},
-		Op{K: "newblk", Ty: "blk"}, Op{K: "newblk", Ty: "blk", L: lTwo},
-		Op{K: "newblk", Ty: "other"}, Op{K: "newblk", Ty: "other", L: lOne},
+		Op{K: "newblk", Ty: "blk"}, Op{K: "newblk", Ty: "blk", L: lTwo}, Op{K: "newblk", Ty: "other"},
 		Op{K: "appblk", Ty: "blk"}, Op{K: "appblk", Ty: "other", L: lTwo}, Op{K: "appblk", Ty: "blk", L: lOne, A: true},
 		Op{K: "rmblk", I: 0}, Op{K: "rmblk", I: 1}, Op{K: "rmforeign"}, Op{K: "reappend"},
-		Op{K: "settype", I: 0, Ty: "blk"}, Op{K: "settype", I: 0, Ty: "other"}, Op{K: "settype", I: 1, Ty: "other"},
+		Op{K: "settype", I: 0, Ty: "blk"}, Op{K: "settype", I: 0, Ty: "other"},
 		Op{K: "setlabels", I: 0}, Op{K: "setlabels", I: 0, L: lOne}, Op{K: "setlabels", I: 0, L: lTwo},
-		Op{K: "setlabels", I: 1, L: lOne},
 		Op{K: "nl"}, Op{K: "unstruct"},
 	)
+	add(root, false,
+		Op{K: "setraw", N: "a", V: "1+2"}, Op{K: "setraw", N: "c", V: "x.y"},
+		Op{K: "ren", N: "b", N2: "c"}, Op{K: "ren", N: "c", N2: "b"}, Op{K: "ren", N: "b", N2: "b"}, Op{K: "ren", N: "c", N2: "c"},
+		Op{K: "newblk", Ty: "blk", L: lOne}, Op{K: "newblk", Ty: "other", L: lOne}, Op{K: "newblk", Ty: "other", L: lTwo},
+		Op{K: "settype", I: 1, Ty: "blk"}, Op{K: "settype", I: 1, Ty: "other"},
+		Op{K: "setlabels", I: 1}, Op{K: "setlabels", I: 1, L: lOne}, Op{K: "setlabels", I: 1, L: lTwo},
+	)
 	// body of block #0 of the root body
-	add([]int{0},
-		Op{K: "setv", N: "a", V: "1"}, Op{K: "setv", N: "c", V: "s"},
-		Op{K: "setraw", N: "a", V: "x.y"}, Op{K: "settrav", N: "c"},
-		Op{K: "ren", N: "a", N2: "c"}, Op{K: "ren", N: "a", N2: "b"},
-		Op{K: "rm", N: "a"},
-		Op{K: "newblk", Ty: "blk", L: lOne}, Op{K: "appblk", Ty: "other"},
-		Op{K: "rmblk", I: 0}, Op{K: "rmforeign"},
+	add([]int{0}, true,
+		Op{K: "setv", N: "a", V: "1"}, Op{K: "setv", N: "c", V: "s"}, Op{K: "setraw", N: "a", V: "x.y"},
+		Op{K: "ren", N: "a", N2: "c"}, Op{K: "rm", N: "a"},
+		Op{K: "newblk", Ty: "blk", L: lOne}, Op{K: "rmblk", I: 0},
 		Op{K: "settype", I: 0, Ty: "other"}, Op{K: "setlabels", I: 0, L: lTwo},
 		Op{K: "nl"},
 	)
+	add([]int{0}, false,
+		Op{K: "settrav", N: "c"}, Op{K: "ren", N: "a", N2: "b"}, Op{K: "ren", N: "b", N2: "a"}, Op{K: "rm", N: "c"},
+		Op{K: "appblk", Ty: "other"}, Op{K: "rmforeign"},
+	)
 	// body of block #1 of the root body
-	add([]int{1},
-		Op{K: "setv", N: "a", V: "1"}, Op{K: "setv", N: "c", V: "1"},
-		Op{K: "rm", N: "a"}, Op{K: "ren", N: "a", N2: "c"},
-		Op{K: "newblk", Ty: "blk"}, Op{K: "rmblk", I: 0}, Op{K: "nl"},
+	add([]int{1}, true,
+		Op{K: "setv", N: "a", V: "1"}, Op{K: "setv", N: "c", V: "1"}, Op{K: "rm", N: "a"},
+		Op{K: "newblk", Ty: "blk"}, Op{K: "nl"},
+	)
+	add([]int{1}, false,
+		Op{K: "settrav", N: "a"}, Op{K: "ren", N: "a", N2: "c"}, Op{K: "rmblk", I: 0},
 	)
 	// body of the first block nested in block #0
-	add([]int{0, 0},
-		Op{K: "setv", N: "b", V: "1"}, Op{K: "setv", N: "c", V: "1"},
-		Op{K: "rm", N: "b"}, Op{K: "ren", N: "b", N2: "c"},
+	add([]int{0, 0}, true,
+		Op{K: "setv", N: "b", V: "1"}, Op{K: "setv", N: "c", V: "1"}, Op{K: "rm", N: "b"},
 		Op{K: "newblk", Ty: "blk"},
 	)
-	return out
+	add([]int{0, 0}, false,
+		Op{K: "ren", N: "b", N2: "c"},
+	)
+	return quick, thorough
 }
 
 // ---------------------------------------------------------------------------
@@ -170,12 +190,12 @@ func buildCandidates() []Op {
 
 // prep is what is known about an operation in a model state before it runs.
 type prep struct {
-	ok     bool // applicable
-	body   *refwriter.Body
-	chain  []*refwriter.Item
-	blk    *refwriter.Item // targeted block (rmblk, settype, setlabels, reappend)
-	hazard string          // "" or the name of a known layout hazard of the target body (see FINDINGS.md)
-	appends bool           // the operation adds tokens at the end of the target body
+	ok      bool // applicable
+	body    *refwriter.Body
+	chain   []*refwriter.Item
+	blk     *refwriter.Item // targeted block (rmblk, settype, setlabels, reappend)
+	hazard  string          // "" or the name of a known layout hazard of the target body (see FINDINGS.md)
+	appends bool            // the operation adds tokens at the end of the target body
 }
 
 func prepare(m *refwriter.File, op Op) prep {
@@ -302,6 +322,7 @@ func gen(tier string, emit func(engine.Case) bool) {
 	if tier == "thorough" {
 		maxLen = 4
 	}
+	full := alphabetFor(tier)
 	inits := make([]*refwriter.File, len(initialFiles))
 	for i := range initialFiles {
 		inits[i] = initialModel(i)
@@ -310,6 +331,12 @@ func gen(tier string, emit func(engine.Case) bool) {
 	// alphabet order. Histories are pruned only by applicability in the
 	// model (target body / block exists).
 	for l := 0; l <= maxLen; l++ {
+		// histories of length 4 are built from the core alphabet only (every
+		// prefix of such a history is among the length-3 histories)
+		candidates := full
+		if l >= 4 {
+			candidates = alphabetQuick
+		}
 		for i := range inits {
 			ops := make([]Op, 0, l)
 			var rec func(m *refwriter.File, n int) bool
@@ -362,12 +389,13 @@ func main() {
 		ID:        "C12",
 		Title:     "Any sequence of writer-API edits leaves a valid file that matches the edits",
 		Technique: "explicit-state exploration of all bounded operation histories on the real hclwrite objects, compared after every step with a map/list reference model",
-		Rule: fmt.Sprintf("all sequences of <= 3 (quick) / <= 4 (thorough) operations over an alphabet of %d edit operations "+
+		Rule: fmt.Sprintf("all sequences of <= 3 operations over a core alphabet of %d edit operations (quick) / all sequences of <= 3 operations over the full alphabet of %d operations plus all sequences of 4 operations over the core alphabet (thorough) "+
 			"(SetAttributeValue/Raw/Traversal, RenameAttribute, RemoveAttribute, AppendNewBlock, AppendBlock of a new / pre-populated / previously removed block, RemoveBlock of block #i or of a foreign block, "+
 			"Block.SetType, Block.SetLabels, AppendNewline, AppendUnstructuredTokens; names a,b,c; values 1,\"s\",list; labels [],[l],[l,m]) "+
 			"on the root body, the bodies of root blocks #0 and #1 and the first body nested in #0, from each of %d initial files (empty, generated via the API, three parsed files with lead/line comments, blank lines, nested labelled block, one-line block, missing final newline). "+
-			"An operation is offered only where its target exists in the model. No state merging: every history is replayed from scratch and judged after every step. "+
-			"Distinct = distinct (final model state, final serialised bytes).", len(candidates), len(initialFiles)),
+			"An operation is offered only where its target exists in the model. No state merging: every history is replayed from scratch on a fresh file. "+
+			"The complete oracle judges the final state of every history (the space is prefix-closed, so that is every reachable state); intermediate steps are checked for panics, documented results and accessor agreement. "+
+			"Distinct = distinct (final model state, final serialised bytes).", len(alphabetQuick), len(alphabetThorough), len(initialFiles)),
 		Assumptions: []string{
 			"hclsyntax.ParseConfig/LexConfig are trusted to read the serialised output back (attribute names, expression ranges, block types/labels, token boundaries)",
 			"go-cty evaluation of literal expressions is trusted for the semantic fallback comparison of generated values",
@@ -381,13 +409,13 @@ func main() {
 			return states.Len(), transitions.Load(), traces.Load()
 		},
 		Extra: func() map[string]any {
-			m := map[string]any{"alphabet_size": len(candidates), "initial_files": len(initialFiles)}
+			m := map[string]any{"alphabet_size_quick": len(alphabetQuick), "alphabet_size_thorough": len(alphabetThorough), "initial_files": len(initialFiles)}
 			for k, v := range counters.Snapshot() {
 				m[k] = v
 			}
 			return m
 		},
-		QuickBudget:    4 * time.Minute,
+		QuickBudget:    6 * time.Minute,
 		ThoroughBudget: 40 * time.Minute,
 	})
 }
